@@ -205,6 +205,20 @@ def generic(L, base, lay_name, fields, ignored_top=(), ignored_full=(), leaf_ren
         attrs = f.get("attrs")
         if attrs is not None:
             L.var(path, leaf, (), v, attrs, scaled="factor" in f)
+            if "factor" in f and f["kind"] == "F":
+                # "the number written, converted with the scale factor": the exactly scaled decimal is as right as the
+                # product of the two rounded doubles (they differ when the written number is subnormal)
+                import fractions
+
+                t = text(fields[key]).strip()
+                try:
+                    exact = float(fractions.Fraction(t) * fractions.Fraction(repr(f["factor"])))
+                    L[f"{path}:{leaf}"]["alt_values"] = [canon(exact)]
+                    if 0 < abs(float(t)) < 2.3e-308:
+                        # a subnormal written number has no exact double: any result within the rounding of the input counts
+                        L[f"{path}:{leaf}"]["loose"] = True
+                except (ValueError, ZeroDivisionError, OverflowError):
+                    pass
         else:
             L.attr(path, leaf, v)
     for m in lay.meta:
@@ -887,8 +901,9 @@ def compare(expected_leaves, actual, ignore_prefixes=(), only_prefixes=None):
             if len(ev) != len(av):
                 bad.append((f"{k}#len", len(ev), len(av)))
                 continue
+            alt = e.get("alt_values") or []
             for i, (x, y) in enumerate(zip(ev, av)):
-                if x != y and not _float_close(x, y, 4 if e.get("scaled") else 0):
+                if x != y and not _float_close(x, y, 4 if e.get("scaled") else 0) and not (i < len(alt) and _float_close(alt[i], y, 4)) and not (e.get("loose") and _float_close(x, y, 2**48)):
                     bad.append((f"{k}[{i}]", x, y))
             continue
         if e != a and not _float_close(e, a):
